@@ -103,6 +103,10 @@ func newRing(endpoints *resolver.EndpointMap[*endpointState], minRingSize, maxRi
 	var currentHashes, targetHashes float64
 	for _, epInfo := range normalizedWeights {
 		targetHashes += scale * epInfo.scaledWeight
+		// The floating point sum of the per-endpoint shares can end slightly
+		// above scale; never generate more than ringSize entries, so that the
+		// ring stays within maxRingSize.
+		targetHashes = math.Min(targetHashes, ringSize)
 		// This index ensures that ring entries corresponding to the same
 		// endpoint hash to different values. And since this index is
 		// per-endpoint, these entries hash to the same value across address
